@@ -6,9 +6,18 @@ import gentree
 from runner import CorrResult
 
 
-def oracle(T, naming, tree, mapping):
-    """the property, evaluated directly on the implementation's result; returns None or a reason"""
+def oracle(T, naming, tree, mapping, prenamed=False):
+    """the property, evaluated directly on the implementation's result; returns None or a reason.
+    For a tree that carried names before (prenamed), stale names on elements that are no longer operands are
+    outside the property's "after automatic naming" reading and are ignored: only the operands are judged."""
     named = [(p, naming.get_name(n)) for p, n in gentree.all_nodes(tree) if naming.get_name(n) is not None]
+    if prenamed:
+        operand_paths = set()
+        for p, n in gentree.all_nodes(tree):
+            if isinstance(n, T.BaseOperation):
+                operand_paths.update(p + (i,) for i in range(len(n.children)))
+        if operand_paths:
+            named = [(p, nm) for p, nm in named if p in operand_paths]
     names = [nm for _, nm in named]
     if len(set(names)) != len(names):
         return "two elements carry the same name"
@@ -48,6 +57,21 @@ def correspond(model_ok, res):
     if lib.tier() != "quick":
         corpus.append(T.AndOperation(*[T.Word("w") for _ in range(52 * 51 + 60)]))
     trees = corpus + [g.tree(r.randrange(0, 5)) for _ in range(n)]
+    # histories: a tree that was named before, then edited (an operand inserted in front of an operation, a
+    # named sub-tree embedded in a new operation), is named again: old names must be overwritten
+    hist = []
+    for _ in range(n // 3):
+        t0 = g.tree(r.randrange(1, 4))
+        naming.auto_name(t0)
+        ops = [nd for _, nd in gentree.all_nodes(t0) if isinstance(nd, T.BaseOperation)]
+        if ops and r.random() < 0.7:
+            o = r.choice(ops)
+            o.children = [g.leaf()] + list(o.children)
+        else:
+            t0 = r.choice([T.AndOperation, T.OrOperation, T.UnknownOperation])(g.leaf(), t0, g.leaf())
+        hist.append(t0)
+    trees += hist
+    renamed = set(id(t) for t in hist)
     for tree in trees:
         before = lib.g_item(tree)
         desc = gentree.describe(tree)
@@ -60,7 +84,7 @@ def correspond(model_ok, res):
             res.failures.append(({"tree": desc[:2000], "exception": repr(e)}, None))
             expected = "None"
         else:
-            why = oracle(T, naming, t2, mapping)
+            why = oracle(T, naming, t2, mapping, prenamed=id(tree) in renamed)
             if why:
                 res.failures.append(({"tree": desc[:2000], "why": why,
                                       "mapping": {k: list(v) for k, v in list(mapping.items())[:50]}}, None))
@@ -102,7 +126,7 @@ SPEC = {
     "model_targets": ["model/Naming.vo", "model/TreeEq.vo"],
     "module": "C15",
     "theorems": ["C15_total", "C15_names_distinct", "C15_named_exactly_operands", "C15_mapping_exact",
-                 "C15_next_name_never_repeats"],
+                 "C15_next_name_never_repeats", "C15_mapping_sound_any_history"],
     "correspond": correspond,
     "statement": "auto_name never fails; all names distinct; named elements are exactly the operands of "
                  "operations (or the root alone); the mapping is exactly name -> path of the element",
